@@ -244,6 +244,60 @@ extern "C" void h_mapkeys(int n, int msz, int ordered) {
 	sym_reach("end");
 }
 
+// ---- ApplyIndexMapToMapKeys with signed keys: a negative key is "not in the index map" (documented: the offset is added)
+extern "C" void h_mapkeys_int(int n, int msz) {
+	std::vector<int> im(msz);
+	for (auto& m : im) {
+		m = (int) sym_u32("m");
+		sym_assume(m >= -1 && m < 8);
+	}
+	for (int i = 0; i < msz; i++)
+		for (int j = i + 1; j < msz; j++)
+			sym_assume(im[i] < 0 || im[i] != im[j]);
+	int off = (int) sym_u32("off");
+	sym_assume(off >= -4 && off <= 4);
+	std::vector<int> keys(n);
+	std::vector<uint32_t> vals(n);
+	for (int i = 0; i < n; i++) {
+		keys[i] = (int) sym_u32("k");
+		sym_assume(keys[i] >= -3 && keys[i] < 12);
+		for (int j = 0; j < i; j++)
+			sym_assume(keys[j] != keys[i]);
+		vals[i] = sym_u32("val");
+	}
+	auto newkey = [&](int k, bool& keep) -> int {
+		keep = true;
+		if (k < 0 || k >= msz)
+			return k + off;
+		if (im[k] >= 0)
+			return im[k];
+		keep = false;
+		return 0;
+	};
+	for (int i = 0; i < n; i++)
+		for (int j = i + 1; j < n; j++) {
+			bool ki, kj;
+			int a = newkey(keys[i], ki), b = newkey(keys[j], kj);
+			sym_assume(!ki || !kj || a != b);
+		}
+	size_t expect = 0;
+	std::map<int, uint32_t> m;
+	for (int i = 0; i < n; i++)
+		m[keys[i]] = vals[i];
+	ApplyIndexMapToMapKeys(m, im, off);
+	for (int i = 0; i < n; i++) {
+		bool keep;
+		int nk = newkey(keys[i], keep);
+		if (!keep)
+			continue;
+		expect++;
+		auto it = m.find(nk);
+		sym_assert(it != m.end() && it->second == vals[i], "C18-mapkeys-signed: remapped signed key missing or carries wrong value");
+	}
+	sym_assert(m.size() == expect, "C18-mapkeys-size: map size after remap");
+	sym_reach("end");
+}
+
 // ---- strips
 extern "C" void h_strips(int ns, int len, int alpha) {
 	std::vector<std::vector<uint16_t>> strips(ns);
